@@ -154,6 +154,52 @@ def check_distribution(dist, u_full, n_real, occ_in_real, trunc=1e-9):
 
 
 SRC_MAX_PHOTONS = 4
+DET_LOG = None     # set to a dict by a check to collect (settings -> in_state -> out_state -> count)
+
+
+def check_sampling_result(obj, kind, name, a, k, res):
+    """Safety post-conditions on what a sampling method returned."""
+    from lightworks.emulator.utils import process_post_selection
+    problems = []
+    c = obj.circuit
+    is_quick = type(obj).__name__ == "QuickSampler"
+    n_vis = c.input_modes
+    if is_quick:
+        ps = obj.post_select
+        counting = obj.photon_counting
+        min_det = 0
+    else:
+        ps_arg = a[1] if len(a) > 1 else k.get("post_select")
+        ps = process_post_selection(ps_arg) if kind != "single" else process_post_selection(None)
+        counting = obj.detector.photon_counting
+        min_det = (a[2] if len(a) > 2 else k.get("min_detection", 0)) if kind != "single" else 0
+    if kind == "single":
+        states = {res: 1}
+    else:
+        states = dict(res)
+        n = a[0] if a else k.get("N")
+        tot = sum(states.values())
+        if kind == "n_outputs" and tot != n:
+            problems.append(f"count: {tot} samples returned for N={n}")
+        if kind == "n_inputs" and tot > n:
+            problems.append(f"count: {tot} samples returned for N={n} inputs")
+        if any((not isinstance(v, (int, np.integer))) or v <= 0 for v in states.values()):
+            problems.append("count: non-positive or non-integer count")
+    for s in states:
+        if len(s) != n_vis:
+            problems.append(f"heralds_not_removed: returned state {s} has {len(s)} modes, circuit has "
+                            f"{n_vis} non-heralded modes (heralds {c.heralds['output']})")
+            break
+        if not ps.validate(s):
+            problems.append(f"post_selection: returned state {s} fails the post-selection")
+            break
+        if s.n_photons < min_det:
+            problems.append(f"min_detection: returned state {s} has fewer than {min_det} photons")
+            break
+        if not counting and any(x > 1 for x in s):
+            problems.append(f"threshold: returned state {s} with threshold detectors")
+            break
+    return problems
 
 
 def check_source_statistics(stats, occ, src):
@@ -361,4 +407,67 @@ def install():
         return res
 
     Source._build_statistics = _build_statistics
+
+    # ---------------- Detector._get_output (C07): per-event invariants + conditional histogram
+    from lightworks.emulator.components import Detector
+    orig_go = Detector._get_output
+
+    @functools.wraps(orig_go)
+    def _get_output(self, in_state):
+        out = orig_go(self, in_state)
+        try:
+            a, b = tuple(in_state), tuple(out)
+            eta, pd, pc = self.efficiency, self.p_dark, self.photon_counting
+            STATS["detector_events"] += 1
+            bad = None
+            if len(a) != len(b):
+                bad = "length changed"
+            elif any(y > x + 1 for x, y in zip(a, b)):
+                bad = "more than one extra count on a mode"
+            elif pd == 0 and any(y > x for x, y in zip(a, b)):
+                bad = "count gained without dark counts"
+            elif eta == 1 and pd == 0 and pc and a != b:
+                bad = "perfect detector changed the state"
+            elif eta == 1 and any(y < min(x, 1) for x, y in zip(a, b)):
+                bad = "photon lost at unit efficiency"
+            elif not pc and any(y not in (0, 1) for y in b):
+                bad = "threshold detector reported a count above one"
+            elif any(y < 0 for y in b):
+                bad = "negative count"
+            if bad:
+                report("C07", f"Detector(eff={eta}, p_dark={pd}, counting={pc}) {list(a)} -> {list(b)}: {bad}",
+                       monitor="Detector._get_output invariant", mechanism="detector_invariant")
+            if DET_LOG is not None:
+                d = DET_LOG.setdefault((eta, pd, pc), {}).setdefault(a, {})
+                d[b] = d.get(b, 0) + 1
+        except Exception as e:  # noqa: BLE001
+            STATS["detector_monitor_error:" + type(e).__name__] += 1
+        return out
+
+    Detector._get_output = _get_output
+
+    # ---------------- sampling methods (C07): per-sample safety post-conditions
+    def wrap_sampling(cls, name, kind):
+        orig = getattr(cls, name)
+
+        @functools.wraps(orig)
+        def w(self, *a, **k):
+            res = orig(self, *a, **k)
+            try:
+                for p in check_sampling_result(self, kind, name, a, k, res):
+                    report("C07", f"{cls.__name__}.{name}: {p}", monitor=f"{cls.__name__}.{name} post-condition",
+                           mechanism="sample_safety:" + p.split(":")[0] + ":" + cls.__name__ + "." + name)
+                STATS["sampling_postconditions"] += 1
+                STATS["sampling_postconditions:" + cls.__name__ + "." + name] += 1
+            except Exception as e:  # noqa: BLE001
+                STATS["sampling_monitor_error:" + type(e).__name__] += 1
+            return res
+
+        setattr(cls, name, w)
+
+    wrap_sampling(emu.Sampler, "sample", "single")
+    wrap_sampling(emu.Sampler, "sample_N_inputs", "n_inputs")
+    wrap_sampling(emu.Sampler, "sample_N_outputs", "n_outputs")
+    wrap_sampling(emu.QuickSampler, "sample", "single")
+    wrap_sampling(emu.QuickSampler, "sample_N_outputs", "n_outputs")
     _installed = True
